@@ -8,6 +8,8 @@ ENV_SLOT_KINDS = ['*', '[', '{', 'm', 'o', 's', 'd<>', 'r()', 't+', 't~']
 
 
 VERB_ENVS = ['vcode']
+ENV_NAME_POOL = ['my-env', 'side-note', 'a.b', 'x_y', 'ns:env', 'p/q', 'wow!', 'up^', 'f(1)', 'n[2]', 'two words', 'star*',
+                 'v2', '-', 'A-1.b_c:d']
 
 
 def _verb_body_parser(name):
@@ -45,6 +47,9 @@ def custom_vocab(rng, unknown_ok=None, n_macros=12, n_envs=5, full_cover_index=N
         name = 'env' + letters[i]
         sig = [rng.choice(ENV_SLOT_KINDS) for _ in range(rng.randint(0, 2))]
         envs[name] = D.M(sig)
+    # environment names over the whole name alphabet of the tokenizer ([A-Za-z0-9*._ :/!^()[]-])
+    for name in rng.sample(ENV_NAME_POOL, 3):
+        envs[name] = D.M([rng.choice(ENV_SLOT_KINDS) for _ in range(rng.randint(0, 1))])
     envs['mathenv'] = D.M('', math=True)
     envs['mathenvb'] = D.M('{', math=True)
     macros['sym'] = D.M('')
